@@ -129,7 +129,7 @@ class GroupMachine(Machine):
     pid = "C15"
     title = "Observer groups broadcast settings faithfully and keep members consistent"
     quick_runs = 3000
-    thorough_runs = 60000
+    thorough_runs = 300000
     components_real = ["cherab.tools.observers.group.* (all group classes)", "cherab.tools.observers.bolometry.BolometerCamera/Foil/Slit",
                        "cherab.tools.observers.spectroscopy (deprecated observers)", "raysect observers and scene graph"]
     components_stub = ["CountPipe (counting subclass of PowerPipeline0D)", "SerialEngine instead of MulticoreEngine",
